@@ -666,6 +666,7 @@ type fgen struct {
 	eoas    []common.Address
 	aspects map[common.Address]*aspectScript
 	creates int
+	standard bool // standard opcodes only: LOGs instead of journal instructions, no Aspects
 }
 
 func (g *fgen) newAddr(prefix byte) common.Address {
@@ -704,7 +705,12 @@ func (g *fgen) genBody(depth int) []fact {
 			g.nextID++
 			out = append(out, fact{kind: "sstore", id: 0x10000 + g.nextID})
 		case k < 45:
-			out = append(out, fact{kind: "journal", slot: uint64(1 + g.r.Intn(3))})
+			if g.standard {
+				g.nextID++
+				out = append(out, fact{kind: "log", id: g.nextID})
+			} else {
+				out = append(out, fact{kind: "journal", slot: uint64(1 + g.r.Intn(3))})
+			}
 		case k < 88 && depth < 4:
 			out = append(out, fact{kind: "sub", sub: g.genSub(depth + 1, false)})
 		case k < 95 && depth < 2 && g.creates < 3:
@@ -745,7 +751,7 @@ func (g *fgen) genSub(depth int, create bool) *fsub {
 	case "code":
 		s.addr = g.newAddr(0xc0)
 		s.body = g.genBody(depth)
-		if s.op == opCALL && g.r.Chance(55) {
+		if s.op == opCALL && !g.standard && g.r.Chance(55) {
 			s.aspect = &aspectScript{pre: g.outcome(), post: g.outcome()}
 			g.aspects[s.addr] = s.aspect
 		}
@@ -771,6 +777,8 @@ func (g *fgen) compileBody(body []fact, end byte, endLen int, runtime []byte, is
 		switch f.kind {
 		case "sstore":
 			a.Op(opPUSH1, 1).PushU(f.id).Op(opSSTORE)
+		case "log":
+			a.PushU(f.id).PushU(0).PushU(0).Op(0xa1) // LOG1 with the id as topic
 		case "journal":
 			// name "v" at 0x400, then VSVJNAL(ptr, slot, offset 0, type 7) and VVJNAL(slot, 0, 32, 7)
 			a.PushU(1).PushU(0x400).Op(opMSTORE)
